@@ -99,7 +99,9 @@ AMBIGUOUS_CDATA = re.compile(r"<([A-Z0-9._]+)><!\[CDATA\[(?:(?!\]\]>).)*\]\]>\s+
 
 def with_comments(text, rng):
     """The same text with three XML comments put between tags (first, middle and last '><' boundary)."""
-    cuts = [m.start() + 1 for m in re.finditer(r">\s*<", text)]
+    # only right after a complete TAG that is followed (after blanks) by another '<': never after element data (a '>' inside data
+    # is not a tag end, and a comment between data and its end tag would detach that end tag from its element)
+    cuts = [m.end(1) for m in re.finditer(r"(</?[A-Z0-9._]+>)\s*(?=<)", text) if not text[: m.start()].rstrip().endswith("]]>")]
     if len(cuts) < 3:
         return None
     picks = sorted({cuts[0], cuts[len(cuts) // 2], cuts[-1]}, reverse=True)
